@@ -33,20 +33,20 @@ def q(xs):
     return ['"%s"' % x for x in xs]
 
 
-def consts(nn, ns, kinds, dev, coords=("n1",), minrf=1, maxrf=None, streamf=STREAMF, callf=CALLF, localf=("up", "errReply")):
+def consts(nn, ns, kinds, dev, coords=("n1",), minrf=1, maxrf=None, streamf=STREAMF, callf=CALLF, localf=("up", "errReply"), sources=(1,)):
     nodes = ["n%d" % i for i in range(1, nn + 1)]
     return {"Nodes": q(nodes), "NShards": ns, "Coords": q(coords), "StreamFaults": q(streamf), "CallFaults": q(callf),
-            "LocalFaults": q(localf), "Kinds": q(kinds), "MinRF": minrf, "MaxRF": maxrf or nn, "Dev": q(dev)}
+            "LocalFaults": q(localf), "Kinds": q(kinds), "Sources": list(sources), "MinRF": minrf, "MaxRF": maxrf or nn, "Dev": q(dev)}
 
 
 def scenarios_of(records):
     """Group the generator's terminal records by scenario."""
     sc = collections.OrderedDict()
     for r in records:
-        key = json.dumps([r["owners"], r["coord"], r["fault"], r["kind"]], sort_keys=True)
+        key = json.dumps([r["owners"], r["coord"], r["fault"], r["kind"], r.get("nsrc", 1)], sort_keys=True)
         s = sc.get(key)
         if s is None:
-            s = sc[key] = {"owners": r["owners"], "coord": r["coord"], "fault": r["fault"], "kind": r["kind"],
+            s = sc[key] = {"owners": r["owners"], "coord": r["coord"], "fault": r["fault"], "kind": r["kind"], "nsrc": r.get("nsrc", 1),
                            "nodes": sorted(r["fault"].keys()), "allowed": [], "unservable": r["unservable"]}
         a = {"outcome": r["outcome"], "reads": r["reads"], "taint": sorted(r["taint"])}
         if a not in s["allowed"]:
@@ -215,16 +215,22 @@ def run(ctx):
     jobs.append(mc("MC32", consts(3, 2, kinds, []), coverage=cov))
     jobs.append(neg("MCneg1", "C05_NeverSilentlyPartialStrict"))
     jobs.append(gen("G32", consts(3, 2, kinds, ASIS)))
+    # statements with two measurement sources of the one db/rp (FROM m, m2 / subqueries): the shards are mapped once,
+    # every operation runs once per source over the same groups, every shard is read once per source
+    MK = ["select", "query", "cost"]
+    mf = ["up", "dialFail", "errReply", "cutFrame", "stall"] if quick else STREAMF
+    jobs.append(mc("MC32m", consts(3, 2, MK, [], streamf=mf, callf=RT if quick else CALLF, sources=(2,)), timeout=1800))
+    jobs.append(gen("G32m", consts(3, 2, MK, ASIS, streamf=mf, callf=RT if quick else CALLF, sources=(2,)), workers=4, timeout=1800))
     if quick:
         jobs.append(gen("G33", consts(3, 3, ["select", "query", "cost"], ASIS, minrf=2, maxrf=2,
                                       streamf=["up", "dialFail", "errReply", "cutFrame", "cutMid"], callf=RT)))
         # four nodes: the only size at which a retry round can split a group's shards over two nodes
         jobs.append(gen("G42", consts(4, 2, ["select"], ASIS, minrf=2, maxrf=3, streamf=RT, callf=RT, localf=("up",))))
         r = par(ctx, jobs)
-        s32, s33, s42, s22 = r[2], r[3], r[4], []
+        s32, s32m, s33, s42, s22 = r[2], r[4], r[5], r[6], []
     else:
         r = par(ctx, jobs)
-        s32 = r[2]
+        s32, s32m = r[2], r[4]
         jobs = [mc("MC22", consts(2, 2, kinds, [], coords=("n1", "n2")), workers=4, timeout=600),
                 neg("MCneg2", "C05_ErrorReplySurfacesStrict"),
                 mc("MC32c", consts(3, 2, kinds, [], coords=("n1", "n2", "n3"), streamf=["up", "dialFail", "errReply", "cutFrame"]), timeout=1200),
@@ -241,6 +247,11 @@ def run(ctx):
         s42 = r[1]
     n32, n33, n22, n42 = ctx.pick((900, 250, 0, 200), (6000, 5000, len(s22), 2500))
     chosen = [dict(s) for s in sample(rnd, s32, n32) + sample(rnd, s33, n33, 0.05) + sample(rnd, s22, n22) + sample(rnd, s42, n42, 0.0)]
+    # two-source statements: a sample, plus the layouts in which the coordinator owns nothing of the db/rp (every
+    # fault-free one, and a sample of the others): there only the remote mapping says "this db/rp is mapped already"
+    remote_only = [s for s in s32m if all(s["coord"] not in ow for ow in s["owners"])]
+    healthy = [s for s in remote_only if set(s["fault"].values()) == {"up"}]
+    chosen += [dict(s) for s in sample(rnd, s32m, ctx.pick(220, 2500), 0.08) + healthy + sample(rnd, remote_only, ctx.pick(80, 1000), 0.05)]
     # rare but important class: run every such scenario of the universe, three times (the owner choice is random)
     split = [s for s in s42 if split_capable(s)]
     rnd.shuffle(split)
@@ -264,9 +275,9 @@ def run(ctx):
         rp = json.load(open(f))["replay"]
         if "scenario" in rp:
             chosen.append(dict(rp["scenario"]))
-    model_scenarios = len(s32) + len(s33) + len(s22) + len(s42)
-    log("scenarios: model %d (3n2s %d, 3n3s %d, 2n2s %d, 4n2s %d of which %d can split a retry round); run %d"
-        % (model_scenarios, len(s32), len(s33), len(s22), len(s42), len(split), len(chosen)))
+    model_scenarios = len(s32) + len(s33) + len(s22) + len(s42) + len(s32m)
+    log("scenarios: model %d (3n2s %d, 3n3s %d, 2n2s %d, 4n2s %d of which %d can split a retry round, two-source 3n2s %d of which %d all-remote); run %d"
+        % (model_scenarios, len(s32), len(s33), len(s22), len(s42), len(split), len(s32m), len(remote_only), len(chosen)))
 
     # ------------------------------------------------------------------ 3. real code
     inp = base_input(chosen, reps=1)
@@ -403,8 +414,9 @@ def validate_traces(ctx, sd, path, by_id, go, base_input):
 def normalize(items, by_id):
     """A node of class `stall` never answers: the caller goes on when its own deadline expires, which is not caused
     by anything the node does.  Under load the node's record of the request can therefore be written after the
-    harness recorded the end of the operation.  The request names its operation, and every operation occurs once
-    per traced run, so such a late `call` line is moved back in front of the `opEnd` of its operation."""
+    harness recorded the end of the operation.  The request names its operation: a `call` line of such a node that
+    shows up while a different operation (or none) is in progress is moved back in front of the latest `opEnd` of
+    its own operation."""
     out = []
     runs = collections.OrderedDict()
     for it in items:
@@ -415,13 +427,19 @@ def normalize(items, by_id):
         if stalls:
             ends = {}
             res = []
+            open_op = None
             for it in its:
                 e = it[3]
+                if e.get("e") == "opStart":
+                    open_op = e["op"]
                 if e.get("e") == "opEnd":
                     ends[e["op"]] = len(res)
+                    open_op = None
                 if e.get("e") == "end":
                     ends.setdefault("MQ", len(res))      # the all-nodes fan-out has no opEnd
-                if e.get("e") == "call" and e.get("node") in stalls and e.get("op") in ends:
+                    open_op = None
+                # late = the operation the request belongs to is not the one in progress
+                if e.get("e") == "call" and e.get("node") in stalls and e.get("op") in ends and e.get("op") != open_op:
                     pos = ends[e["op"]]
                     res.insert(pos, it)
                     for k in ends:
